@@ -23,6 +23,7 @@ from sa.pyfront import Program
 from sa.symex import Interp, flat_guards
 
 RULES = {
+    "R-C06-k": "no operation leaves an explicit entry under the common value (imported from the C07 analysis): such an entry is invisible to to_array but is overwritten by the next common-value move, after which the dense values differ from NumPy's",
     "R-C06-j": "an augmented assignment through an integer-array index (A[rows] -= 1) acts once per DISTINCT row (NumPy buffers the read-modify-write), so the index array must be duplicate-free: one entry's row ids are, a concatenation of several entries' row ids is not",
     "R-C06-i": "the dtype ladder that collapsed relies on (fit_dtype) contains [min, max] in every leaf - imported from the C19 analysis",
     "R-C06-a": "no method writes storage reachable from a non-receiver operand; non-mutating methods do not write the receiver either",
@@ -575,6 +576,20 @@ def main(tier):
     rule_g(prog, rep)
     rule_h(prog, rep)
     rule_j(prog, rep)
+    import c07
+    sub7 = core.Report("C07", level="other", rules=c07.RULES, tier=tier)
+    ii7 = prog.cls("iindexes", "iindex")
+    stats7 = {"sites": 0}
+    for name7, f7 in ii7.methods.items():
+        if name7 != "__init__":
+            c07.analyse_root(prog, f7, sub7, stats7)
+    c07.analyse_root(prog, prog.func("iindexes", "column_stack"), sub7, stats7)
+    k7 = 0
+    for o in sub7.obls:
+        if o.rule == "R-C07-c":
+            k7 += 1
+            rep.add("R-C06-k", o.where, "[%s] %s" % (o.rule, o.construct), o.status, o.detail, True, o.witness)
+    rep.floor("R-C06-k", 20, k7)
     import c19
     sub = core.Report("C19", level="proof", rules=c19.RULES, tier=tier)
     c19.analyse(prog, sub, False)
